@@ -24,6 +24,7 @@ pub fn run_case(toks: &[&str], em: &mut Emitter) {
                 'W' => outs.push(format!("w:{}", hex(&main.gss_wrapex(&unhex(rest)).unwrap()))),
                 'M' => { let s = mirror.gss_wrapex(&unhex(rest)).unwrap(); outs.push(show(main.gss_unwrapex(&s))); }
                 'T' => { let (bit, pt) = split(rest); let mut s = mirror.gss_wrapex(&pt).unwrap(); flip_bit(&mut s, bit); outs.push(show(main.gss_unwrapex(&s))); }
+                'D' => { let (n, pt) = split(rest); let mut s = mirror.gss_wrapex(&pt).unwrap(); flip_bit(&mut s, n / 4096); flip_bit(&mut s, n % 4096); outs.push(show(main.gss_unwrapex(&s))); }
                 'R' => { let (bit, pt) = split(rest); let mut s = mirror.gss_wrapex(&pt).unwrap(); flip_bit(&mut s, bit); let r1 = show(main.gss_unwrapex(&s)); let r2 = show(main.gss_unwrapex(&s)); outs.push(format!("{}+{}", r1, r2)); }
                 'X' => { let (n, pt) = split(rest); let mut s = mirror.gss_wrapex(&pt).unwrap(); s.truncate(n); outs.push(show(main.gss_unwrapex(&s))); }
                 'A' => { let (n, pt) = split(rest); let mut s = mirror.gss_wrapex(&pt).unwrap(); s.extend(vec![0u8; n]); outs.push(show(main.gss_unwrapex(&s))); }
@@ -45,7 +46,7 @@ pub fn generate(thorough: bool, seed: u64, part: (usize, usize), em: &mut Emitte
     // the keys of the security interface as the client derives them in a real exchange, for flag sets with and
     // without NEGOTIATE_128 / NEGOTIATE_56 / VERSION / UNICODE (the server seals with the MS-NLMP keys)
     if part.0 == 0 {
-        for (k, flags) in [0x62898235u32, 0x42898235, 0xe2898235, 0x42898234, 0x60898235, 0x62088235].iter().enumerate() {
+        for (k, flags) in [0x62898235u32, 0x42898235, 0xe2898235, 0x42898234, 0x60898235, 0x62088235, 0x62898215, 0x62898225, 0x62898205, 0x62810235].iter().enumerate() {
             let mut ti = crate::props::c15::av(2, &crate::props::c15::utf16("D")); ti.extend(crate::props::c15::av(7, &r.bytes(8))); ti.extend(crate::props::c15::av(0, &[]));
             let scv = r.bytes(8); let mut sc = [0u8; 8]; sc.copy_from_slice(&scv);
             let c = crate::props::c01::Case { dom: "DOM".into(), user: "user".into(), pw: "pw".into(), from_hash: false, ra: false, id: 1 + k % 2, flags: *flags, sc, ti, reply: "honest".into(), reply1: "honest".into(), pre: String::new() };
@@ -94,6 +95,20 @@ pub fn generate(thorough: bool, seed: u64, part: (usize, usize), em: &mut Emitte
         let mut ops2: Vec<String> = (0..(i % 2)).map(|_| format!("M{}", hex(&msg(&mut r)))).collect();
         ops2.push(format!("R{}:{}", bit, hex(&p1))); ops2.push(format!("R{}:{}", (bit + 40) % 128, hex(&p2)));
         emit(em, &k, &ops2);
+    }
+    // two bits altered at once: the same bit in two bytes of the checksum / of the sequence number / of checksum and
+    // ciphertext (differences that cancel when byte differences are folded instead of accumulated), after some traffic
+    if part.0 == 0 {
+        for i in 0..(if thorough { 40 } else { 6 }) {
+            let k = keys(&mut r);
+            let pt = r.bytes(3 + i % 5);
+            let pre: Vec<String> = (0..(i % 3)).map(|_| format!("M{}", hex(&msg(&mut r)))).collect();
+            for b1 in 4..12usize { for b2 in (b1 + 1)..12 { for bit in &[0usize, 7] {
+                let mut ops = pre.clone(); ops.push(format!("D{}:{}", 4096 * (8 * b1 + bit) + 8 * b2 + bit, hex(&pt))); ops.push(format!("M{}", hex(&pt)));
+                emit(em, &k, &ops);
+            } } }
+            for (b1, b2) in &[(0usize, 1usize), (12, 13), (4, 16), (12, 16), (16, 17)] { let mut ops = pre.clone(); ops.push(format!("D{}:{}", 4096 * (8 * b1 + 3) + 8 * b2 + 3, hex(&pt))); emit(em, &k, &ops); }
+        }
     }
     // sealed messages beyond 64 KiB (NTLM sealing has no such limit), in both directions, then a small one
     if part.0 == 0 {
